@@ -84,6 +84,12 @@ func (r *round1) Update(msg model.ConsensusMessage) *Error {
 		return nil
 	}
 
+	// the piece must be signed over this block's hash, otherwise it can not be part of the group sign
+	if si.GetDataHash() != bh.Hash {
+		r.logger.Errorf("piece signed for another hash, id: %s. signed: %s, hash: %s, height: %d", si.GetSignerID().GetHexString(), si.GetDataHash().String(), bh.Hash.String(), bh.Height)
+		return nil
+	}
+
 	// check data
 	if !si.VerifySign(pk) {
 		r.logger.Errorf("fail to verify sign, id: %s. hash: %s, height: %d", si.GetSignerID().GetHexString(), cvm.BlockHash.String(), bh.Height)
